@@ -354,7 +354,7 @@ func workerMain() {
 		Exhaustive: true,
 		Bounds: map[string]any{"ascii_alphabet": alphabet, "ascii_max_lines": k, "binary_lengths": fmt.Sprintf("0..%d", maxLen), "binary_fills": 4,
 			"binary_counts": "0..4, len-consistent and +-1, 2^16, 2^31, 2^32-1, 85899346, every count with 84+50c == len modulo 2^32 or 2^31"},
-		Extra:       map[string]any{"outcomes": oc, "max_alloc_single_binary_file": w.maxAlloc, "avg_alloc_per_ascii_file": perFile, "ascii_files": ascFiles, "binary_files": binFiles},
+		Extra: map[string]any{"outcomes": oc, "max_alloc_single_binary_file": w.maxAlloc, "avg_alloc_per_ascii_file": perFile, "ascii_files": ascFiles, "binary_files": binFiles},
 		Assumptions: []string{"file contents are bounded to the token alphabet / length menus", "a 60 s watchdog per call on files <= 400 KiB decides 'hang'", "allocation bound: TotalAlloc delta <= 64*size + 1 MiB per binary file (measured sequentially); ASCII part measured in aggregate",
 			"a panic inside obj.ImportSTL after the loader returned (mesh to SDF conversion) is outside this property and only counted"},
 	})
